@@ -38,6 +38,10 @@ type Prog struct {
 	bankOps     map[*ssa.Function][]BankOp
 }
 
+// FuncAlias gives functions that the rules recognise by what they do (the decimals converter and its two
+// wrappers) the name the renderings and operation labels use for them, whatever they are called in the tree.
+var FuncAlias = map[*ssa.Function]string{}
+
 // Edge is one resolved call.
 type Edge struct {
 	Caller *ssa.Function
@@ -294,6 +298,9 @@ func Describe(call *ssa.CallCommon) (CalleeDesc, bool) {
 					}
 				}
 			}
+		}
+		if a, ok := FuncAlias[fn]; ok {
+			d.Name = a
 		}
 		return d, true
 	}
